@@ -1,6 +1,6 @@
 (* C10 - mesh topology is independent of encoding and internally consistent. *)
 From Coq Require Import ZArith List Bool.
-From EV Require Import Base.Index Base.ListX Model.Topology Proofs.TopologyP Proofs.TopologyP2.
+From EV Require Import Base.Index Base.ListX Model.Topology Model.Fill Proofs.TopologyP Proofs.TopologyP2 Proofs.FillP.
 Import ListNotations.
 Open Scope Z_scope.
 
@@ -89,3 +89,15 @@ Print Assumptions C10_derived_edge_face.
 Theorem C10_derived_face_face : forall fe, face_faces_ok fe (mk_ff fe) = true.
 Proof. exact mk_ff_ok. Qed.
 Print Assumptions C10_derived_face_face.
+
+(* the value that marks a missing entry in the normalised integer tables (all nines, one digit more than the largest count)
+   is not the number of any node, face or edge, zero- or one-based *)
+Theorem C10_fill_is_no_element : forall nc fc mnc si i, 0 <= nc -> 0 <= fc -> 0 <= mnc -> 0 <= si <= 1 ->
+  0 <= i -> (i < nc \/ i < fc * mnc) -> i + si <> sensible_fill nc fc mnc.
+Proof. exact sensible_fill_not_an_index. Qed.
+Print Assumptions C10_fill_is_no_element.
+
+(* len(str(n)) as computed: n < 10 ^ digits n, and 10 ^ (digits n - 1) <= n for n >= 1 *)
+Theorem C10_decimal_digits : forall n, 0 <= n -> n < 10 ^ digits n /\ (1 <= n -> 10 ^ (digits n - 1) <= n).
+Proof. exact digits_spec. Qed.
+Print Assumptions C10_decimal_digits.
